@@ -535,6 +535,8 @@ type batch struct {
 	enumKinds int
 	enumPos   int
 	enumBases int // base scenarios in the thorough tier (quick tier: quick)
+	// dense enumeration: every bit of every byte of each candidate write no longer than enumDense bytes
+	enumDense int
 }
 
 type propDef struct {
@@ -567,7 +569,9 @@ func init() {
 		rule:    "each evaluation is one simulated end-to-end transfer (generated source tree x configuration vector x transport profile x schedule) on a fault-free link; non-trivial = both sides reported success and the file-system oracle compared every transferred entry; distinct = distinct (configuration class, schedule-trace hash) pairs"})
 	reg(&propDef{id: "C02", level: "exploration", crashIsViol: false,
 		batches: []batch{{name: "bytefaults", quick: 3000, thorough: 60000},
-			{name: "enumerated", quick: 2, thorough: 60, enumKinds: 5, enumPos: 6, enumBases: 60}},
+			{name: "enumerated", quick: 2, thorough: 60, enumKinds: 5, enumPos: 6, enumBases: 60},
+			{name: "enumerated-resume", params: map[string]string{"resume": "1"}, quick: 6, thorough: 80, enumKinds: 5, enumPos: 6, enumBases: 80},
+			{name: "bitflips", params: map[string]string{"resume": "1"}, quick: 2, thorough: 12, enumKinds: 1, enumDense: 160, enumBases: 12}},
 		rule:    "each evaluation is one simulated transfer (1-3 small files, protocols 1-4, base64/binary/compressed/escaped, resume with hash exchange) in which 1-3 byte-level faults (bit flip, deletion, duplication, insertion, truncation) are applied to tape-chosen chunks and positions (biased to the structural bytes of a line) of either direction of one hop; non-trivial = at least one fault actually altered bytes and both roles ended; distinct = distinct (configuration + fault placement class, schedule-trace hash, tape hash)"})
 	reg(&propDef{id: "C11", level: "exploration", crashIsViol: false,
 		batches: []batch{{name: "flowfaults", quick: 2600, thorough: 60000},
@@ -961,6 +965,28 @@ func main() {
 					places = int(v)
 				}
 				enumBaseRuns++
+				if b.enumDense > 0 {
+					lens, _ := r.Scenario["enum_lens"].([]any)
+					for k := 0; k < places && k < len(lens); k++ {
+						n, _ := lens[k].(float64)
+						if int(n) > b.enumDense {
+							continue
+						}
+						for abs := 0; abs < int(n); abs++ {
+							for bit := 0; bit < 8; bit++ {
+								params := map[string]string{"batch": b.name, "enum_k": fmt.Sprint(k), "enum_abs": fmt.Sprint(abs), "enum_bit": fmt.Sprint(bit)}
+								for kk, v := range b.params {
+									params[kk] = v
+								}
+								jobs = append(jobs, &Job{ID: id, Prop: pd.id, Seed: uint64(*seed), Idx: r.Idx, Tier: *tier, Params: params})
+								batchOf[id] = b.name
+								id++
+								enumPlaces++
+							}
+						}
+					}
+					continue
+				}
 				for k := 0; k < places; k++ {
 					for kind := 0; kind < b.enumKinds; kind++ {
 						for pos := 0; pos < b.enumPos; pos++ {
